@@ -92,6 +92,7 @@ type ContractSet struct {
 	AtomicOnly   []string    // pkgDir|T.f : only sync/atomic may touch the field
 	Guarded      [][3]string // pkgDir, T.f, T.lock : every access needs the lock held
 	TypeInvQ     []*Clause
+	OnceOnly     []string  // "dir|func": only used as the argument of (*sync.Once).Do
 	ScriptRely   []*Clause // what unknown code guarantees for every object of a type, however it ends (two-state)
 	AbruptRely   []*Clause // what unknown code leaves behind when it panics (two-state, over a held value)
 	AbruptHavoc  []string  // "T.f": jspreserved only on normal completion
@@ -185,6 +186,11 @@ func parseContractFile(cs *ContractSet, path, pkgDir string) {
 			c.Owner = &Contract{PkgDir: pkgDir, PkgName: pkgName, Func: "axiom", File: path}
 			cs.Axioms = append(cs.Axioms, c)
 			cs.Scan = append(cs.Scan, fmt.Sprintf("axiom %s (%s:%d)", c.Text, filepath.Base(path), ln+1))
+		case strings.HasPrefix(l, "onceonly "):
+			// onceonly <function> ...: the function is only ever handed to (*sync.Once).Do
+			for _, f := range strings.Fields(strings.TrimPrefix(l, "onceonly ")) {
+				cs.OnceOnly = append(cs.OnceOnly, pkgDir+"|"+f)
+			}
 		case strings.HasPrefix(l, "atomiconly "):
 			for _, f := range strings.Fields(strings.TrimPrefix(l, "atomiconly ")) {
 				cs.AtomicOnly = append(cs.AtomicOnly, pkgDir+"|"+f)
